@@ -74,6 +74,14 @@ func r191(c *an.Ctx) {
 	const rule = "R19.1"
 	w := lockWorld(c)
 	n := 0
+	// the active-id check of deleteMode, wherever it is written (deleteMode itself or a helper it delegates to)
+	inDelete := map[*ssa.Function]bool{}
+	if dm := c.Prog.Func(elecPkg, "Model", "deleteMode"); dm != nil {
+		inDelete[dm] = true
+		for _, h := range an.TransparentCalleesOf(dm, 2) {
+			inDelete[h] = true
+		}
+	}
 	for _, fn := range c.Prog.FuncsIn(elecPkg) {
 		if c.Prog.IsGenerated(fn.Pos()) {
 			continue
@@ -84,7 +92,7 @@ func r191(c *an.Ctx) {
 				return
 			}
 			isWrite := m == "Add" || m == "Update" || m == "Delete" || m == "Set"
-			isInvRead := (f == "modes" && (m == "Get" || m == "List")) || (f == "activeMode" && m == "Get" && fn.Name() == "deleteMode")
+			isInvRead := (f == "modes" && (m == "Get" || m == "List")) || (f == "activeMode" && m == "Get" && inDelete[fn])
 			// plain projections for clients (Modes, ActiveMode, Pull…) need no model lock: the resources lock themselves
 			if !isWrite && !isInvRead {
 				return
@@ -196,7 +204,7 @@ func r192(c *an.Ctx) {
 			// condition that guards C, provided one of those conditions is the Normal test of the written
 			// mode (e.g. `if mode.Normal && <the update writes the normal field> { normalMode() … }`).
 			var guardOpp []an.CondEdge
-			an.Instrs(fn, func(x ssa.Instruction) {
+			eachInstrDeep(fn, func(x ssa.Instruction) {
 				if !checked(x) {
 					return
 				}
@@ -627,4 +635,12 @@ func writesNormalHelper(cond ssa.Value) string {
 		return an.FuncName(h) + " never compares a path with \"normal\""
 	}
 	return ""
+}
+
+// eachInstrDeep visits the instructions of fn and of the callees of fn the analyses look through.
+func eachInstrDeep(fn *ssa.Function, f func(ssa.Instruction)) {
+	an.Instrs(fn, f)
+	for _, h := range an.TransparentCalleesOf(fn, 2) {
+		an.Instrs(h, f)
+	}
 }
